@@ -1,5 +1,7 @@
 import UsualProofs.C03.RoundTrip
 import UsualProofs.C03.BuildInv
+import UsualProofs.C03.ParseWf
+import UsualProofs.C03.Utf8Link
 /-!
 # C03 — JSON render/parse round trip and builder consistency
 
@@ -146,5 +148,45 @@ theorem built_roundtrip (strtod : Bytes → Option UInt64) (fmt17 : UInt64 → B
 example : (reach [.newDict, .newList, .putS 0 [0x62] (.float 1), .put (some 0) [0x61] (some 1),
       .appendS 1 (.str [0xE2, 0x80, 0xA9]), .appendS 1 .null]).value 0 =
     some (.dict [([0x61], .list [.str [0xE2, 0x80, 0xA9], .null]), ([0x62], .float 1)]) := by decide
+
+/-! ## trees obtained from parsing -/
+
+/-- **Every value of the reference parser is well-formed**, provided no string or name contains
+a 0 byte (`\u0000`: not representable in `json.c`, which refuses the document).  Together with
+property C02 (`json_parse` yields `Rfc.parse`'s value on RFC documents) this puts every tree
+obtained from `json_parse` into the domain of the round-trip theorem. -/
+theorem parsed_wf (strtod : Bytes → Option UInt64) (doc : Bytes) (v : JVal)
+    (h : parse strtod doc = some v) (hz : v.noNul) : v.wf = true :=
+  parse_wf strtod doc v h hz
+
+/-- round trip for parsed trees: render what was parsed, parse again, same tree -/
+theorem parsed_roundtrip (strtod : Bytes → Option UInt64) (fmt17 : UInt64 → Bytes)
+    (hsyn : ∀ x, isFinite x = true → floatTok (renderFloat fmt17 x) = true)
+    (hf : ∀ x, isFinite x = true → strtod (renderFloat fmt17 x) = some x)
+    (doc : Bytes) (v : JVal) (h : parse strtod doc = some v) (hz : v.noNul) :
+    parse strtod (render fmt17 v) = some v :=
+  render_parse_roundtrip strtod fmt17 hsyn hf v (parsed_wf strtod doc v h hz)
+
+/-- non-vacuity: ` {"b":[1,-0,"\u2028\n"],"a":{}}` (names out of order, escapes, white space) -/
+example : parse sdCanon [0x20, 0x7B, 0x22, 0x62, 0x22, 0x3A, 0x5B, 0x31, 0x2C, 0x2D, 0x30, 0x2C, 0x22, 0x5C, 0x75,
+      0x32, 0x30, 0x32, 0x38, 0x5C, 0x6E, 0x22, 0x5D, 0x2C, 0x22, 0x61, 0x22, 0x3A, 0x7B, 0x7D, 0x7D] =
+    some (.dict [([0x61], .dict []), ([0x62], .list [.int 1, .int 0, .str [0xE2, 0x80, 0xA8, 0x0A]])]) := by
+  decide
+example : (JVal.dict [([0x61], .dict []), ([0x62], .list [.int 1, .int 0, .str [0xE2, 0x80, 0xA8, 0x0A]])]).noNul := by
+  simp [JVal.noNul, noNulKvs, noNulList]
+
+/-! ## link to property C11 -/
+
+/-- **The string check of the builder model is `utf8_validate_string`**: `validString` (what
+`newString` / `dictPut` test, written with the RFC 3629 recogniser of the reference) accepts
+exactly the strings the C11 model of `utf8_validate_string` accepts — the model property C11
+ties to `usual/utf8.c` by translation. -/
+theorem new_string_check_is_utf8_validate_string (s : Bytes) :
+    validString s = true ↔ Usual.C11.validateStringU s = true :=
+  validString_iff_c11 s
+
+example : Usual.C11.validateStringU [0x41, 0xE2, 0x80, 0xA8, 0xF4, 0x8F, 0xBF, 0xBF] = true ∧
+    Usual.C11.validateStringU [0xED, 0xA0, 0x80] = false ∧ validString [0xED, 0xA0, 0x80] = false := by
+  decide
 
 end UsualProps.C03
